@@ -32,8 +32,15 @@ if [ $need = 1 ]; then
   mods=""
   for f in $R/build/extract/*.ml; do b=$(basename $f .ml); mods="$mods $b.mli $b.ml"; done
   hs=""
-  for f in $R/driver/h_*.ml; do [ -f "$f" ] && hs="$hs $(basename $f)"; done
-  ocamlfind ocamlopt -O3 -w -a -package str $mods conv.ml $hs handlers.ml driver.ml -o vdriver.new 2>build.log || \
-  ocamlfind ocamlopt -w -a $mods conv.ml $hs handlers.ml driver.ml -o vdriver.new 2>build.log || { cat build.log; exit 1; }
+  : > h_all.ml
+  for f in $R/driver/h_*.ml; do
+    [ -f "$f" ] || continue
+    b=$(basename $f .ml)
+    hs="$hs $b.ml"
+    m="$(echo ${b:0:1} | tr a-z A-Z)${b:1}"
+    echo "let () = $m.install Registry.register" >> h_all.ml
+  done
+  ocamlfind ocamlopt -O3 -w -a -package str $mods conv.ml registry.ml $hs h_all.ml handlers.ml driver.ml -o vdriver.new 2>build.log || \
+  ocamlfind ocamlopt -w -a $mods conv.ml registry.ml $hs h_all.ml handlers.ml driver.ml -o vdriver.new 2>build.log || { cat build.log; exit 1; }
   mv vdriver.new vdriver
 fi
